@@ -8,7 +8,9 @@
 //! `BytecodeModule` (cyclic/deep types, crafted constants, generated instruction streams,
 //! hostile task/process-image metadata, dangling indices) followed by `encode()`;
 //! (4) `emit`: every program of the corpus (hand-written programs + every .st file, project
-//! directory, Markdown block and Rust-test raw string under the repository that compiles).
+//! directory, Markdown block and Rust-test raw string under the repository that compiles);
+//! (5) `stgen` / `shape`: the emit direction on generated programs - the shared typed
+//! generator and a boundary-shape generator (c11/shapes.rs).
 //!
 //! Oracles: decode/validate/metadata/encode return (no panic; an abort, stack overflow or
 //! allocation failure under RLIMIT_AS kills the worker and is attributed to the journalled
@@ -34,6 +36,7 @@ use crate::engine::{catch, digest64, Probe, PropertyInfo, RunCtx};
 pub mod layout;
 pub mod modelmut;
 pub mod programs;
+pub mod shapes;
 
 use layout::{Field, Kind, Layout};
 use programs::{corpus, Prog};
@@ -42,11 +45,11 @@ pub fn info() -> PropertyInfo {
     PropertyInfo {
         id: "C11",
         level: "exploration",
-        rule: "cases = random / framed-random byte strings, byte-level patches of every count/index/offset/length/size/enum field of compiler-emitted containers (CRC recomputed or CRC flag cleared), typed mutations of the decoded model re-encoded with encode(), and every compiled corpus program; non-trivial = the input passes the magic + header + section-table + CRC gate and reaches a section decoder (decode returns Ok or a section-level error), or is a compiled program; distinct by SHA-256 of the container bytes; the classification lists every patched (section, field) class and the decode/validate/apply outcomes",
+        rule: "cases = random / framed-random byte strings, byte-level patches of every count/index/offset/length/size/enum field of compiler-emitted containers (CRC recomputed or CRC flag cleared), typed mutations of the decoded model re-encoded with encode(), and the emit direction over every compiled corpus program, stgen programs (strict dial, widest features) and boundary-shape programs (c11/shapes.rs); non-trivial = the input passes the magic + header + section-table + CRC gate and reaches a section decoder (decode returns Ok or a section-level error), or is a compiled program; distinct by SHA-256 of the container bytes; the classification lists every patched (section, field) class and the decode/validate/apply outcomes",
         assumptions: &[
             "memory proportional to the input is judged by RLIMIT_AS = 1 GiB per worker (>= 2000x the largest input) and an 8 MiB stack",
             "containers declaring a process image above 64 MiB are not applied (counted as apply=skipped_big_image)",
-            "program corpus = hand-written programs + repository sources that compile (no stgen yet)",
+            "emit direction = hand-written programs + repository sources that compile + stgen programs + boundary-shape programs; only what the front end accepts can be judged (rejections are counted)",
             "apply_bytecode_bytes installs task and process-image metadata only; the runtime does not execute container code, so 'safe' is judged on apply + three execute_cycle calls",
         ],
         workers_quick: 8,
@@ -80,6 +83,20 @@ pub fn err_name(e: &BytecodeError) -> &'static str {
         BytecodeError::InvalidJumpTarget(_) => "InvalidJumpTarget",
         BytecodeError::InvalidPouId(_) => "InvalidPouId",
         BytecodeError::InvalidIndex { .. } => "InvalidIndex",
+    }
+}
+
+/// The same judgement on the *text* of a CompileError of a corpus candidate (the corpus is
+/// compiled through the harness API, which only keeps the message): a front-end diagnostic
+/// is not a BytecodeError at all; "invalid section data: <msg>" is the encoder's or the
+/// validator's.
+fn compile_error_is_validators(why: &str) -> bool {
+    if validator_class(why) {
+        return true;
+    }
+    match why.strip_prefix("invalid section data: ") {
+        Some(msg) => !encoder_class(msg),
+        None => false,
     }
 }
 
@@ -209,6 +226,17 @@ fn variant_name(debug: &str) -> String {
 
 /// All oracles on one byte string. `origin` = the program the container was derived from.
 pub fn check_container(bytes: &[u8], origin: Option<&Prog>, other: u8) -> Result<Outcome, String> {
+    check_container_opt(bytes, origin, other, true)
+}
+
+/// `apply = false`: codec oracles only (used for a generated program that panics in its own
+/// cycles without any container involved - that is another property's finding).
+pub fn check_container_opt(
+    bytes: &[u8],
+    origin: Option<&Prog>,
+    other: u8,
+    apply: bool,
+) -> Result<Outcome, String> {
     let mut out = Outcome::default();
     let dec = catch(|| BytecodeModule::decode(bytes)).map_err(|p| format!("decode panicked: {p}"))?;
     out.gate = passed_gate(bytes, &dec);
@@ -259,7 +287,7 @@ pub fn check_container(bytes: &[u8], origin: Option<&Prog>, other: u8) -> Result
             }
         }
     }
-    if val.is_err() {
+    if val.is_err() || !apply {
         return Ok(out);
     }
     // validated means safe
@@ -956,7 +984,94 @@ fn check_model(case: &ModelCase, probe: &mut Probe) -> Result<(), String> {
 // ---------------------------------------------------------------------------------------
 // (4) emit direction
 
+/// How far one source text gets through the compiler.
+pub enum Emit {
+    /// rejected by parser / checker / lowering (no runtime): not this property's business
+    FrontEnd(String),
+    /// the compiler panicked (C01/C05/C12 territory; counted)
+    Panic(String),
+    /// the runtime builds but the bytecode encoder does not support a construct
+    Encoder(String),
+    /// the encoder built a container that fails `validate` (its own self-check)
+    Validator(String),
+    Ok(Prog),
+}
+
+/// Is this error of `BytecodeModule::from_runtime*` one that `validate` raises (as opposed
+/// to "the encoder does not support this")?
+fn validator_error(e: &BytecodeError) -> bool {
+    match e {
+        BytecodeError::InvalidSection(msg) => validator_class(msg) || !encoder_class(msg),
+        _ => true,
+    }
+}
+
+/// The encoder's own "I cannot express this" messages (bytecode/encoder/*.rs). Every other
+/// message of a failed build comes from the self-check (`module.validate()`), including
+/// messages that validate.rs may gain later: an unknown message is judged as the
+/// validator's, so that a new validator rule cannot hide behind "unsupported".
+fn encoder_class(msg: &str) -> bool {
+    const EXACT: &[&str] = &[
+        "method id missing",
+        "unknown class-like",
+        "method owner missing",
+        "circular inheritance detected",
+        "circular interface inheritance detected",
+        "wstring const not supported yet",
+        "unresolved IO binding",
+        "unknown type id",
+        "unknown parent POU",
+        "unknown interface",
+        "unknown function block",
+        "unknown class",
+        "program id missing",
+        "global reference missing",
+        "function id missing",
+        "function block id missing",
+        "class id missing",
+        "debug source missing",
+        "debug paths length mismatch",
+        "debug path missing",
+        "POU code offset",
+    ];
+    EXACT.contains(&msg)
+        || msg.starts_with("unsupported ")
+        || msg.starts_with("string const not supported yet")
+        || msg.ends_with(" overflow")
+}
+
+pub fn emit_source(source: &str) -> Emit {
+    let sources = vec![(None, source.to_string())];
+    let session = programs::session_for(&sources);
+    let rt = match catch(|| session.build_runtime()) {
+        Ok(Ok(rt)) => rt,
+        Ok(Err(e)) => return Emit::FrontEnd(e.to_string()),
+        Err(p) => return Emit::Panic(p),
+    };
+    let module = match catch(|| BytecodeModule::from_runtime_with_sources(&rt, &[source])) {
+        Ok(Ok(m)) => m,
+        Ok(Err(e)) if validator_error(&e) => return Emit::Validator(e.to_string()),
+        Ok(Err(e)) => return Emit::Encoder(e.to_string()),
+        Err(p) => return Emit::Panic(p),
+    };
+    let bytes = match catch(|| module.encode()) {
+        Ok(Ok(b)) => b,
+        Ok(Err(e)) => return Emit::Encoder(format!("encode: {e}")),
+        Err(p) => return Emit::Panic(p),
+    };
+    Emit::Ok(Prog {
+        name: "generated".into(),
+        sources,
+        bytes,
+        module,
+    })
+}
+
 fn check_emit(p: &Prog, probe: &mut Probe) -> Result<(), String> {
+    check_emit_opt(p, probe, true)
+}
+
+fn check_emit_opt(p: &Prog, probe: &mut Probe, apply: bool) -> Result<(), String> {
     let v = catch(|| p.module.validate()).map_err(|e| format!("validate panicked: {e}"))?;
     if let Err(e) = v {
         return Err(format!("validate(compile(p)) = Err({e})"));
@@ -984,7 +1099,8 @@ fn check_emit(p: &Prog, probe: &mut Probe) -> Result<(), String> {
         ));
     }
     // the layout walker is an independent reading of the format: it must tile every section
-    if let Some(lay) = layouts().get(&p.name) {
+    {
+        let lay = layout::walk(&p.bytes);
         if !lay.problems.is_empty() {
             probe.label("emit=layout_walker_disagrees");
             return Err(format!(
@@ -993,9 +1109,17 @@ fn check_emit(p: &Prog, probe: &mut Probe) -> Result<(), String> {
             ));
         }
     }
-    let out = check_container(&p.bytes, Some(p), (digest64(p.name.as_bytes()) & 0xff) as u8)?;
+    let out = check_container_opt(
+        &p.bytes,
+        Some(p),
+        (digest64(&p.bytes) & 0xff) as u8,
+        apply,
+    )?;
     if out.validate != "Ok" {
         return Err(format!("validate(decode(compile(p))) = {}", out.validate));
+    }
+    if out.metadata != "Ok" {
+        return Err(format!("metadata() of a compiler-emitted container = {}", out.metadata));
     }
     let kind = p.name.split('/').next().unwrap_or("");
     probe.label(format!("emit_source={kind}"));
@@ -1005,12 +1129,165 @@ fn check_emit(p: &Prog, probe: &mut Probe) -> Result<(), String> {
     record(
         &out,
         &p.bytes,
-        "emit",
+        if p.name == "generated" { "emit_generated" } else { "emit" },
         probe,
         json!({"class": "emit", "program": p.name, "bytes": p.bytes.len(), "apply": out.apply}),
     );
     probe.nontrivial(&p.bytes);
     Ok(())
+}
+
+// ---------------------------------------------------------------------------------------
+// (5) generated programs: shared stgen + boundary shapes
+
+#[derive(Clone, Debug, Serialize, Deserialize)]
+pub struct SourceCase {
+    /// "stgen" | "shape"
+    pub kind: String,
+    /// the ST source (self-contained: a replay does not depend on the generators)
+    pub source: String,
+    #[serde(default)]
+    pub features: Vec<String>,
+}
+
+thread_local! {
+    /// (generated, rejected by the front end) per kind, for the rejection-rate note
+    static SOURCE_COUNTS: std::cell::RefCell<BTreeMap<String, (u64, u64)>> = const { std::cell::RefCell::new(BTreeMap::new()) };
+}
+
+fn stgen_config() -> crate::stgen::GenConfig {
+    let mut cfg = crate::stgen::GenConfig::strict_core();
+    // widest features that compile; larger bodies than the C02 domain (nothing is executed
+    // against a reference here)
+    cfg.features.pow = true;
+    cfg.max_stmts = 40;
+    cfg.max_functions = 4;
+    cfg.max_fbs = 3;
+    cfg.max_vars = 14;
+    cfg
+}
+
+fn stgen_case(prog_tape: &Tape, trace_tape: &Tape) -> SourceCase {
+    let g = crate::stgen::generate(prog_tape, trace_tape, &stgen_config());
+    let printed = crate::stgen::print::print_program(&g.program, crate::stgen::print::PrintOpts::default());
+    SourceCase {
+        kind: "stgen".into(),
+        source: printed.source,
+        features: Vec::new(),
+    }
+}
+
+fn shape_case(tape: &Tape) -> SourceCase {
+    let mut r = Reader::new(tape);
+    let (source, features) = shapes::shape_program(&mut r);
+    SourceCase {
+        kind: "shape".into(),
+        source,
+        features: features.iter().map(|f| f.to_string()).collect(),
+    }
+}
+
+/// Does the program panic in its own cycles, with no container applied? (Then the apply
+/// oracle cannot attribute a panic to the container; such programs get the codec oracles
+/// only. The same rule the corpus filter uses.)
+fn panics_on_its_own(p: &Prog) -> bool {
+    catch(|| {
+        let Ok(mut rt) = p.session().build_runtime() else {
+            return;
+        };
+        rt.set_execution_deadline(Some(std::time::Instant::now() + std::time::Duration::from_secs(10)));
+        let _ = rt.execute_cycle();
+        for step in programs::CYCLE_STEPS_NANOS {
+            rt.advance_time(Duration::from_nanos(*step));
+            let _ = rt.execute_cycle();
+        }
+    })
+    .is_err()
+}
+
+fn check_source(case: &SourceCase, probe: &mut Probe) -> Result<(), String> {
+    let kind = case.kind.as_str();
+    let count = |rejected: bool| {
+        SOURCE_COUNTS.with(|c| {
+            let mut c = c.borrow_mut();
+            let e = c.entry(kind.to_string()).or_default();
+            e.0 += 1;
+            if rejected {
+                e.1 += 1;
+            }
+        })
+    };
+    let feats = if case.features.is_empty() {
+        kind.to_string()
+    } else {
+        let mut f = case.features.clone();
+        f.sort();
+        f.dedup();
+        f.join("+")
+    };
+    let first_line = |e: &str| -> String {
+        let l = e.lines().next().unwrap_or("");
+        // drop source positions so that the label set stays small
+        let l = l.split(" (at ").next().unwrap_or(l);
+        let l = l.split(" at ").next().unwrap_or(l);
+        l.chars().take(70).collect()
+    };
+    match emit_source(&case.source) {
+        Emit::FrontEnd(e) => {
+            count(true);
+            probe.label(format!("{kind}_compile=frontend_reject"));
+            // message class only (no addresses / names), so that the label set stays small
+            let msg = first_line(&e);
+            let msg = msg.split(':').next().unwrap_or("").to_string();
+            let msg = msg.split('\'').next().unwrap_or("").trim().to_string();
+            probe.label(format!("{kind}_reject={msg}"));
+            Ok(())
+        }
+        Emit::Panic(e) => {
+            count(true);
+            // a front-end panic is C01/C05/C12/C13 territory; keep it visible
+            probe.label(format!("{kind}_compile=PANIC: {}", first_line(&e)));
+            Ok(())
+        }
+        Emit::Encoder(e) => {
+            count(false);
+            probe.label(format!("{kind}_emit=encoder_unsupported: {}", first_line(&e)));
+            Ok(())
+        }
+        Emit::Validator(e) => {
+            count(false);
+            Err(format!(
+                "the compiler built a container that fails its own validation: {e}\n--- source ({feats}) ---\n{}",
+                clip(&case.source, 3000)
+            ))
+        }
+        Emit::Ok(p) => {
+            count(false);
+            let own_panic = panics_on_its_own(&p);
+            if own_panic {
+                probe.label(format!("{kind}_program=panics_without_container"));
+            }
+            check_emit_opt(&p, probe, !own_panic).map_err(|e| {
+                format!("{e}\n--- source ({feats}) ---\n{}", clip(&case.source, 3000))
+            })?;
+            probe.label(format!("{kind}_compile=ok"));
+            for f in &case.features {
+                probe.label(format!("shape_ok={f}"));
+            }
+            Ok(())
+        }
+    }
+}
+
+fn clip(s: &str, n: usize) -> String {
+    if s.len() <= n {
+        return s.to_string();
+    }
+    let mut end = n;
+    while !s.is_char_boundary(end) {
+        end -= 1;
+    }
+    format!("{}\n...[{} bytes]", &s[..end], s.len())
 }
 
 // ---------------------------------------------------------------------------------------
@@ -1057,7 +1334,7 @@ fn run(ctx: &mut RunCtx) {
         }
         if ctx.worker == 0 {
             for r in &c.rejected {
-                if r.stage == "compile" && validator_class(&r.why) {
+                if r.stage == "compile" && compile_error_is_validators(&r.why) {
                     let j = json!({"program": r.name});
                     ctx.violation(
                         "emit",
@@ -1088,7 +1365,7 @@ fn run(ctx: &mut RunCtx) {
                 } else if let Some(r) = c
                     .rejected
                     .iter()
-                    .find(|r| r.name == name && r.stage == "compile" && validator_class(&r.why))
+                    .find(|r| r.name == name && r.stage == "compile" && compile_error_is_validators(&r.why))
                 {
                     ctx.stats.replays_run += 1;
                     ctx.violation(
@@ -1123,6 +1400,20 @@ fn run(ctx: &mut RunCtx) {
 
     // (2) byte-level patches of compiler-emitted containers
     ctx.search("patch", patch_strategy(), tier.pick(40_000, 1_800_000), check_patch);
+
+    // (5) emit direction on generated programs: shared stgen, boundary shapes
+    let stgen = (tape_strategy(700), tape_strategy(8)).prop_map(|(p, t)| stgen_case(&p, &t));
+    ctx.search("stgen", stgen, tier.pick(2_000, 80_000), check_source);
+    let shape = tape_strategy(90).prop_map(|t| shape_case(&t));
+    ctx.search("shape", shape, tier.pick(3_000, 120_000), check_source);
+    let counts = SOURCE_COUNTS.with(|c| c.borrow().clone());
+    for (kind, (n, rejected)) in counts {
+        if kind == "stgen" && n >= 50 && rejected * 2 > n {
+            ctx.inconclusive(format!(
+                "stgen: {rejected} of {n} generated programs were rejected by the compiler (generator and toolchain disagree)"
+            ));
+        }
+    }
 
     // (3) typed model mutations
     let model = (prog_name_strategy(), tape_strategy(48), any::<u8>())
@@ -1173,6 +1464,30 @@ pub fn helper(args: &[String]) -> Option<i32> {
             }
             for r in &c.rejected {
                 println!("REJ {:70} {:14} {}", r.name, r.stage, r.why);
+            }
+            Some(0)
+        }
+        // c11-try <file.st>...: compile each file and print how far it gets
+        Some("c11-try") => {
+            crate::engine::install_quiet_panic_hook();
+            for path in &args[1..] {
+                let Ok(src) = std::fs::read_to_string(path) else { continue };
+                let name = std::path::Path::new(path).file_stem().and_then(|s| s.to_str()).unwrap_or("").to_string();
+                let t = std::time::Instant::now();
+                let line = match emit_source(&src) {
+                    Emit::FrontEnd(e) => format!("frontend-reject  {}", e.lines().next().unwrap_or("")),
+                    Emit::Panic(e) => format!("COMPILE-PANIC    {e}"),
+                    Emit::Encoder(e) => format!("encoder-reject   {e}"),
+                    Emit::Validator(e) => format!("VALIDATOR-REJECT {e}"),
+                    Emit::Ok(p) => {
+                        let mut probe = Probe::default();
+                        match check_emit(&p, &mut probe) {
+                            Ok(()) => format!("ok {} bytes", p.bytes.len()),
+                            Err(e) => format!("EMIT-VIOLATION   {e}"),
+                        }
+                    }
+                };
+                println!("{name:28} {:7.1} ms  {line}", t.elapsed().as_secs_f64() * 1e3);
             }
             Some(0)
         }
